@@ -445,6 +445,8 @@ class AEval:
                 return v[1].get(e["name"], ANY)
             if v[0] == "newtype" and e["name"] == "0":
                 return v[2]
+            if v[0] == "int" and e["name"] == "0":
+                return v   # a constant of an integer newtype, already evaluated to its scalar
             if v[0] == "tuple" and e["name"].isdigit():
                 return v[1][int(e["name"])]
             if v[0] == "any":
